@@ -151,9 +151,6 @@ AbsMarks(S, wr) ==
                          o  == M.O[nm]
                      IN IF o.w = "n" THEN [M EXCEPT !.good = @ /\ ~x.ok]
                         ELSE IF o.w = "u" THEN [M EXCEPT !.taint = @ \cup {o.path}]
-                        \* a description open for writing on a directory cannot exist
-                        \* (open fails with EISDIR): no opinion on what writing to it does
-                        ELSE IF o.path \in DOMAIN M.F /\ M.F[o.path].kind = "dir" THEN M
                         ELSE IF ~x.ok THEN [M EXCEPT !.good = FALSE]
                         ELSE IF o.path \notin DOMAIN M.F THEN M
                         ELSE IF M.F[o.path].kind # "reg" THEN M
